@@ -54,14 +54,14 @@ def run(tier, seed):
     sdef = "{" + ", ".join("<<%d, %d>>" % p for p in sorted(samples)) + "}"
     rows_run = tlc.run("IndexWalk", constants={"NFull": nfull, "NMaxRows": nrows_max, "Chunk": 16},
                        defs={"Samples": sdef, "BasisSet": "{}"}, init="InitRows", next="NextRows",
-                       invariants=["RowsOK", "SizeLimit", "ExportRow"], timeout=1500)
+                       invariants=["RowsOK", "SizeLimit", "ExportRow"], timeout=1500, env=R.JAVA_ENV)
     chk.add_tlc(rows_run, "Bits.tla via IndexWalk (rows): IndexOfRow, RowOfIndex, LexAfter, KetPosition, SizeLimit")
     cols_run = tlc.run("IndexWalk", constants={"NFull": 1, "NMaxRows": 1, "Chunk": 1},
                        defs={"Samples": "{}", "BasisSet": R.strings(R.XYZ, 1, nstr)}, init="InitBasis", next="NextBasis",
-                       invariants=["DictOK", "BasisOK", "ExportColumn", "ExportDict"], timeout=1500)
+                       invariants=["DictOK", "BasisOK", "ExportColumn", "ExportDict"], timeout=1500, env=R.JAVA_ENV)
     chk.add_tlc(cols_run, "Unitaries.tla via IndexWalk (strings): OneConvention (block = Row definition)")
     files_run = tlc.run("DataFile", constants={"MaxRows": frows, "MaxSites": 2, "Alphabet": {"X", "Y", "Z"}},
-                        invariants=["RefExact", "RefNotAny", "PsiLayout", "DMLayout", "Export"], timeout=1500)
+                        invariants=["RefExact", "RefNotAny", "PsiLayout", "DMLayout", "Export"], timeout=1500, env=R.JAVA_ENV)
     chk.add_tlc(files_run, "DataFile.tla: RefExact, RefNotAny, PsiLayout, DMLayout")
     for res, name in ((rows_run, "Bits"), (cols_run, "Unitaries"), (files_run, "DataFile")):
         if res.violation:
@@ -511,7 +511,7 @@ def seeded_files(chk, d, rng, quick, D):
             for ln in lines + [c[1] for c in ctl]:
                 fh.write(json.dumps(ln) + "\n")
         res = tlc.run("TraceData", constants={"MaxRows": 1, "MaxSites": 1, "Alphabet": {"Z"}}, init="TInit", next="TNext",
-                      constraints=["Track"], postcondition="Verdicts", workers=1, timeout=1500, env={"TRACE_FILE": path})
+                      constraints=["Track"], postcondition="Verdicts", workers=1, timeout=1500, env=dict(R.JAVA_ENV, TRACE_FILE=path))
     finally:
         shutil.rmtree(tdir, ignore_errors=True)
     chk.add_tlc(res, "TraceData.tla (%d loads)" % len(lines))
